@@ -1,6 +1,6 @@
 //! C04 engine binary: single-shot panic at every user-callback tick of every operation.
 use engines::common::Ctx;
-use engines::fam::{Heap, Large, Track};
+use engines::fam::{Heap, Large, NoDrop, Track};
 use engines::panicsafe::{finish_stats, new_drv, Drv};
 
 const OTHERS: [&[u32]; 4] = [&[], &[1, 2], &[3, 2, 9], &[4]];
@@ -51,6 +51,8 @@ fn main() {
             "track" => space::<Track>(&mut d, &caps, universe),
             "heap" => space::<Heap>(&mut d, &caps, universe),
             "large" => space::<Large>(&mut d, &caps, universe),
+            // elements without drop glue whose Clone / == can unwind
+            "nodrop" => space::<NoDrop>(&mut d, &caps, universe),
             other => panic!("unknown family {}", other),
         }
         d.cx.rep.exhaustive = d.cx.only_hist.is_none() && stride == 1;
@@ -62,6 +64,7 @@ fn main() {
                     d.random_big::<Track, 40>(big / 20);
                 }
                 "large" => d.random_big::<Large, 8>(big),
+                "nodrop" => d.random_big::<NoDrop, 8>(big),
                 _ => {
                     d.random_big::<Heap, 8>(big / 2);
                     d.random_big::<Heap, 16>(big / 2);
